@@ -99,6 +99,8 @@ pub mod primary_writer {
     pub uninterp spec fn pw_written() -> bool;
     pub uninterp spec fn pw_written_from(origin: int) -> bool;
     pub uninterp spec fn pw_flushed() -> bool;
+    /// oracle: the outcome of the primary writer's flush
+    pub uninterp spec fn pw_flush_result() -> std::io::Result<()>;
     /// oracle: the outcome of the primary writer's write
     pub uninterp spec fn pw_result(record: &Record) -> std::io::Result<()>;
     impl PrimaryWriter {
@@ -109,7 +111,9 @@ pub mod primary_writer {
         //@   ret r
         //@   ens r == pw_result(record)
         //@ sig src/primary_writer.rs impl PrimaryWriter / fn flush
+        //@   ret r
         //@   ens pw_flushed()
+        //@   ens r == pw_flush_result()
     }
     impl super::filter::LogLineWriter for PrimaryWriter {
         #[verifier::external_body]
@@ -126,6 +130,8 @@ pub mod writers {
     pub uninterp spec fn ow_written(wid: int) -> bool;
     pub uninterp spec fn ow_written_from(wid: int, origin: int) -> bool;
     pub uninterp spec fn ow_flushed(wid: int) -> bool;
+    /// oracle: the outcome of flushing the additional writer with this identity
+    pub uninterp spec fn ow_flush_result(wid: int) -> std::io::Result<()>;
     /// oracle: the outcome of handing the record to the additional writer with this identity
     pub uninterp spec fn ow_result(wid: int, record: &Record) -> std::io::Result<()>;
     /// SHIM: the methods of `trait LogWriter` that FlexiLogger calls
@@ -138,8 +144,8 @@ pub mod writers {
                 ow_ok(self.wid(), record), //@label LogWriter::write.perm C13
             ensures ow_written(self.wid()), ow_written_from(self.wid(), old(now).origin()), final(now).origin() == old(now).origin(), r == ow_result(self.wid(), record),
         ;
-        fn flush(&self) -> std::io::Result<()>
-            ensures ow_flushed(self.wid());
+        fn flush(&self) -> (r: std::io::Result<()>)
+            ensures ow_flushed(self.wid()), r == ow_flush_result(self.wid());
         fn max_log_level(&self) -> (r: log::LevelFilter)
             ensures r == self.max_log_level_spec();
     }
@@ -270,6 +276,15 @@ pub mod flexi_logger {
     //@   loop 1 inv[FlexiLogger::flush.loop.all] forall|w: Box<dyn LogWriter>| self.writers().values().contains(w) ==> #[trigger] it.seq().contains(&w)
     //@   loop 1 inv[FlexiLogger::flush.loop.done] super::primary_writer::pw_flushed() && forall|j: int| 0 <= j < it.index@ ==> super::writers::ow_flushed((#[trigger] it.seq()[j]).wid())
     //@   ens[FlexiLogger::flush.post.all] super::primary_writer::pw_flushed() && forall|w: Box<dyn LogWriter>| #[trigger] self.writers().values().contains(w) ==> super::writers::ow_flushed(w.wid())
+    //@   props C19
+    //@   loop 1 inv[FlexiLogger::flush.loop.reported] (super::primary_writer::pw_flush_result() is Err ==> super::util::reported(ErrorCode::Flush)) && forall|j: int| 0 <= j < it.index@ && super::writers::ow_flush_result((#[trigger] it.seq()[j]).wid()) is Err ==> super::util::reported(ErrorCode::Flush)
+    //@   ens[FlexiLogger::flush.post.failure_reported] (super::primary_writer::pw_flush_result() is Err ==> super::util::reported(ErrorCode::Flush)) && forall|w: Box<dyn LogWriter>| #[trigger] self.writers().values().contains(w) && super::writers::ow_flush_result(w.wid()) is Err ==> super::util::reported(ErrorCode::Flush)
+    //@   closure ~flushing primary writer failed ## sig |e: std::io::Error| -> (u: ())
+    //@   closure ~flushing primary writer failed ## req super::util::reportable(ErrorCode::Flush)
+    //@   closure ~flushing primary writer failed ## ens super::util::reported(ErrorCode::Flush)
+    //@   closure ~flushing custom writer failed ## sig |e: std::io::Error| -> (u: ())
+    //@   closure ~flushing custom writer failed ## req super::util::reportable(ErrorCode::Flush)
+    //@   closure ~flushing custom writer failed ## ens super::util::reported(ErrorCode::Flush)
     }
 }
 }
